@@ -388,9 +388,48 @@ func (t *FnTrans) call(x *ssa.Call, c *ssa.CallCommon, st *HeapState, reach stri
 	}
 	callee := c.StaticCallee()
 	if callee == nil {
+		// a call through a function-typed local that holds one of several
+		// function constants (non-capturing closures, package functions):
+		// case split on the function value, each case against that
+		// function's contract, states and results merged afterwards
+		if fv := t.val(c.Value); fv.K == VFunc && len(fv.Alts) > 0 {
+			var ins []mergeInput
+			var conds []string
+			var rets []Val
+			for _, a := range fv.Alts {
+				sti := st.clone()
+				delete(t.vals, x)
+				t.callResolved(x, c, a.Fn, args, sti, and(reach, a.Cond), b, idx)
+				rets = append(rets, t.vals[x])
+				conds = append(conds, a.Cond)
+				ins = append(ins, mergeInput{a.Cond, sti})
+			}
+			t.replaceState(st, &HeapState{cur: map[string]string{}, merge: ins, pending: map[string]int{}, pendingPrefix: map[string]int{}})
+			if _, isTuple := x.Type().(*types.Tuple); x.Type() != nil && (!isTuple || x.Type().(*types.Tuple).Len() > 0) {
+				allSet := true
+				for _, r := range rets {
+					if r.K == VNone && r.T == nil {
+						allSet = false
+					}
+				}
+				if allSet {
+					t.setVal(x, t.mergeVals(x.Type(), conds, rets))
+				} else {
+					t.setVal(x, t.havocVal(x.Type(), "dyn"))
+				}
+			}
+			t.dynSplits++
+			return
+		}
 		t.unknownCall(x, "dynamic call", st)
 		return
 	}
+	t.callResolved(x, c, callee, args, st, reach, b, idx)
+}
+
+// callResolved: a call whose callee is known (statically, or in one case of a
+// split over the values of a function-typed local).
+func (t *FnTrans) callResolved(x *ssa.Call, c *ssa.CallCommon, callee *ssa.Function, args []Val, st *HeapState, reach string, b *ssa.BasicBlock, idx int) {
 	name := calleeName(callee)
 	if f, ok := intrinsics[name]; ok {
 		if r, ok := f(t, x, args, st, reach); ok {
